@@ -880,3 +880,6 @@ def r5(chk, repo):
     chk.ob(rule, ETH + "EtherCat.connect", "send_queue is a FIFO Queue", ok,
            con, "asyncio.Queue preserves submission order (LifoQueue / "
            "PriorityQueue would not)")
+
+# added rules (appended to the explanation the evidence file carries)
+EXPLANATION += (" " + 'Added during the build (DESIGN.md 4.31, second table): (R12.12) the future awaited by roundtrip is created in the call and queued on every path; (R12.13) the queue is waited for only with nothing pending; the fetch guard of R12.3 generalised; wait_futures is a plain dict.')
